@@ -168,6 +168,7 @@ func runCase(t *testing.T, c *Case, keepTrace bool) (res *Result) {
 
 func finish(x *Ctx) {
 	s, res := x.S, x.Res
+	x.flushCounters()
 	res.Steps = s.Steps
 	res.Multi = s.Multi
 	res.Hash = fmt.Sprintf("%016x", s.Hash)
